@@ -6,6 +6,8 @@ import (
 	"grog/internal/console"
 	"grog/internal/label"
 	"grog/internal/model"
+	"grog/internal/verifhook"
+	"strconv"
 	"sync"
 )
 
@@ -105,6 +107,7 @@ func (w *Walker) Walk(
 
 	ctx, cancelFunc := context.WithCancel(ctx)
 	w.allCancel = cancelFunc
+	defer verifhook.Event("walk.return")
 
 	// populate info map
 	for _, node := range w.graph.nodes {
@@ -126,6 +129,7 @@ func (w *Walker) Walk(
 		w.wait.Add(1)
 		// start all routines
 		go w.nodeRoutine(ctx, node, w.nodeInfoMap[node.GetLabel()])
+		verifhook.Point("walk.register", node.GetLabel().String())
 
 		// start all routines with no dependencies immediately
 		if len(w.graph.inEdges[node.GetLabel()]) == 0 {
@@ -191,6 +195,7 @@ func (w *Walker) onComplete(node model.BuildNode, completion Completion) {
 	// Mark node as done
 	completion.NodeType = node.GetType()
 	w.completions[node.GetLabel()] = completion
+	verifhook.Event("walk.complete", node.GetLabel().String(), strconv.FormatBool(completion.IsSuccess))
 
 	if w.failFastTriggered {
 		// If failFast was triggered, we assume everything is being cancelled already
@@ -202,6 +207,7 @@ func (w *Walker) onComplete(node model.BuildNode, completion Completion) {
 		if w.failFast {
 			w.failFastTriggered = true
 			w.allCancel()
+			verifhook.Event("walk.failfast", node.GetLabel().String())
 			w.cancelAll()
 		} else {
 			// Cancel *all* descendants if the node failed
@@ -252,6 +258,7 @@ func (w *Walker) nodeRoutine(
 	case <-info.cancel:
 		return
 	case <-info.ready:
+		verifhook.Event("walk.start", node.GetLabel().String())
 		// call the callback
 		cacheResult, err := w.walkCallback(ctx, node)
 		if err != nil {
